@@ -484,6 +484,38 @@ def check_through_catalog(run):
             shutil.rmtree(T['root'], ignore_errors=True)
 
 
+def check_through_read_asdf(run):
+    """The same decoders as read_asdf drives them (table-owned output buffers, one or both of pos / vel, any subset of the aux fields)."""
+    import shutil
+    import tempfile
+
+    from abacusnbody.data import read_abacus as RA
+
+    from . import c16
+
+    rng = run.rng(9)
+    d = tempfile.mkdtemp(prefix='verif_c04_')
+    try:
+        for k, (ftype, N) in enumerate((('rvint', 300), ('packedpid', 300), ('rvint', 1), ('pid', 77))):
+            fn, data, hdr = c16.make_file(rng, d, ftype, N, ['snapshot', 'lightcone'][k % 2], None, 40 + k)
+            loads = (['pos'], ['vel'], ['pos', 'vel'], ['vel', 'pos']) if ftype == 'rvint' else (['pid'], ['lagr_pos'], ['density', 'tagged'], ['lagr_idx', 'pid', 'density'], ['aux', 'pid'], c16.PIDCOLS)
+            for load in loads:
+                for dtype in (np.float32, np.float64):
+                    desc = dict(through='read_asdf', file_type=ftype, N=N, load=load, dtype=np.dtype(dtype).str)
+                    run.ev()
+                    run.progress(desc)
+                    try:
+                        t = RA.read_asdf(fn, load=load, dtype=dtype, verbose=False)
+                    except Exception as e:
+                        run.violation('read-asdf-decode-raises-' + type(e).__name__, dict(error=str(e)[:200], **desc))
+                        continue
+                    run.nt(('read_asdf', ftype, tuple(load), desc['dtype']))
+                    run.count('read_asdf_tables')
+                    c16.check_table(run, t, ftype, data, hdr, load, dtype, desc)
+    finally:
+        shutil.rmtree(d, ignore_errors=True)
+
+
 def check(run):
     from abacusnbody.data import bitpacked
 
@@ -494,6 +526,7 @@ def check(run):
     check_rvint_output_modes(run, bitpacked)
     check_aux(run, bitpacked)
     check_through_catalog(run)
+    check_through_read_asdf(run)
     if not run.quick:
         check_rvint_exhaustive(run)
 
